@@ -58,6 +58,19 @@ def run(prog, rep, tier, repo):
         rep.viol('dispatch-reachable', 'dispatch-reachable:' + K, 'function disappeared')
         return {}
     rep.touch(K)
+    # the rules below read one body: a scan for the bracket, tests on its index, and a push per outcome.  When the body pushes nothing into the
+    # value it returns (the work moved into helpers behind `extend(map(..))`), none of them is read: every instance is NOT-DECIDED, no floor
+    # counts idiom sites that are simply elsewhere
+    _rets = f.return_values()
+    _out = _rets[0] if _rets else None
+    UNREAD = not any(c_.path and short(c_.path) == 'push' and c_.args and c_.args[0] == _out for c_ in f.calls())
+
+    def floor_(rule, n, what):
+        if UNREAD:
+            have = sum(1 for o in rep.obs if o.rule == rule)
+            for i_ in range(have, n):
+                rep.undecided(rule, '%s:%s:unread-%d' % (rule, short(K), i_), 'results are not assembled by pushes in %s itself: %s not read' % (short(K), what), site_of(f.body), proof=False)
+        rep.floor(rule, n, what)
     x = ('arg', 1, f.names.get(1))
     y = ('arg', 2, f.names.get(2))
     tgt = ('arg', 3, f.names.get(3))
@@ -137,7 +150,7 @@ def run(prog, rep, tier, repo):
             rep.viol('dispatch-reachable', key, 'the branch `%s` is %s can never be taken: %s is at most %s after the bracketing scan. '
                      'Targets beyond the last abscissa are therefore never recognised as out of range (the fill / panic / right-extrapolation '
                      'handlers behind this test are dead)' % (show(c), v, show(loc), pshow(bounds[loc][1], show)), site_of(f.body.blocks[s].term.span))
-    rep.floor('dispatch-reachable', 2, 'branch outcomes on the bracketing index')
+    floor_('dispatch-reachable', 2, 'branch outcomes on the bracketing index')
     dead_blocks = set()
     for s, d, c, v in dead_edges:
         # blocks reachable only through the dead edge: dominated by d when d has the single predecessor s
@@ -202,13 +215,16 @@ def run(prog, rep, tier, repo):
     sites.append(('in-range', inrange[0] if inrange else None))
     for name, c in sites:
         key = 'handler:%s:%s' % (short(K), name)
-        if c is None:
+        if c is None and not raw_pushes:
+            # the result is not assembled by pushes in this body (`extend(map(..))` over helpers, say): the sites are not read
+            rep.undecided('handler', key, 'results are not pushed in the body of %s itself: %s site not read' % (short(K), name), site_of(f.body), proof=False)
+        elif c is None:
             rep.viol('handler', key, 'no %s result site found' % name, site_of(f.body))
         elif live(c):
             rep.ok('handler', key, 'reachable result site at bb%d' % c.bb)
         else:
             rep.viol('handler', key, 'the %s handler (bb%d) is only reachable through a branch that can never be taken' % (name, c.bb), site_of(c.span))
-    rep.floor('handler', 6, 'fill x2, panic, extrapolate x2, in-range')
+    floor_('handler', 6, 'fill x2, panic, extrapolate x2, in-range')
 
     # ------------------------------------------------------------------ D2 definite OOB
     n_acc = 0
@@ -234,12 +250,12 @@ def run(prog, rep, tier, repo):
                         rep.viol('oob', key, 'element access %s is out of bounds for every input (index = len %+d)' % (show(z), c), site_of(f.body))
                     else:
                         rep.ok('oob', key, 'not definitely out of bounds')
-    rep.floor('oob', 8, 'element accesses on the parameters')
+    floor_('oob', 8, 'element accesses on the parameters')
 
     # ------------------------------------------------------------------ D4 convex combination
     key = 'convex:%s' % short(K)
     if not inrange:
-        rep.viol('convex', key, 'no in-range push found', site_of(f.body))
+        (rep.undecided if UNREAD else rep.viol)('convex', key, 'no in-range push found', site_of(f.body), **({'proof': False} if UNREAD else {}))
     else:
         v = inrange[0].args[1]
         ok, why = _match_convex(v, x, y, tgt)
@@ -247,7 +263,7 @@ def run(prog, rep, tier, repo):
             rep.ok('convex', key, 'in-range value = r*y[k] + (1-r)*y[k-1], r = (t - x[k-1])/(x[k] - x[k-1]), k = %s' % why)
         else:
             rep.viol('convex', key, 'in-range value %s is not the convex combination of the two neighbouring knots (%s)' % (show(v)[:200], why), site_of(inrange[0].span))
-    rep.floor('convex', 1, 'in-range formula')
+    floor_('convex', 1, 'in-range formula')
     # extrapolation formulas anchored at first / last segment
     for i, c in enumerate(ex_sorted[:2]):
         key = 'extrapolate-anchor:%s:%d' % (short(K), i)
@@ -274,7 +290,7 @@ def run(prog, rep, tier, repo):
             rep.ok('extrapolate-anchor', key, 'one formula per side')
         else:
             rep.viol('extrapolate-anchor', key, 'extrapolation formulas cover sides %s' % kinds, site_of(f.body))
-    rep.floor('extrapolate-anchor', 2, 'left/right extrapolation formulas')
+    floor_('extrapolate-anchor', 2, 'left/right extrapolation formulas')
 
     # ------------------------------------------------------------------ D3 checked variant
     g = prog.func(KC)
@@ -515,7 +531,7 @@ def run(prog, rep, tier, repo):
                          'x[j] < target' if bad[0][1] == 'lt' else 'a different predicate', bad[0][0], bad[0][2]), site_of(f.body))
         else:
             rep.ok('bracket', key, 'bracket index = #{j < n-1 : x[j] <= target} (%s)' % ', '.join(vd[0] for vd in verdicts))
-    rep.floor('bracket', 1, 'interp1d_linear_unchecked')
+    floor_('bracket', 1, 'interp1d_linear_unchecked')
 
     # ------------------------------------------------------------------ D7 range tests are exact
     # A target is out of range exactly when it is < x[0] or > x[n-1].  Every branch that compares a target with a knot must compare the two
@@ -545,14 +561,14 @@ def run(prog, rep, tier, repo):
                  'as in range although they lie outside [x[0], x[n-1]] (Fill/Panic modes are not honoured there)' % show(bad[0])[:120], site_of(f.body))
     else:
         rep.ok('range-test', key, '%d comparisons, each of a target element with a knot' % len(conds))
-    rep.floor('range-test', 1, 'interp1d_linear_unchecked')
+    floor_('range-test', 1, 'interp1d_linear_unchecked')
     # unchecked also asserts lengths
     key = 'checked:%s:len' % short(K)
     conds = [('bin', 'Eq', ('len', x), ('len', y), 'usize'), ('bin', 'Eq', ('len', y), ('len', x), 'usize')]
     if pushes and all(any(cn in conds and v is True for cn, v in f.guards().get(c.bb, [])) for c in pushes):
         rep.ok('checked', key, 'assert_eq!(x.len(), y.len()) dominates every result site')
     else:
-        rep.viol('checked', key, 'result sites are not dominated by the length assert', site_of(f.body))
+        (rep.undecided if UNREAD else rep.viol)('checked', key, 'result sites are not dominated by the length assert', site_of(f.body), **({'proof': False} if UNREAD else {}))
     return {}
 
 
